@@ -1257,6 +1257,7 @@ func main() {
 	nbig := flag.Int("big", 3, "scenarios with large shards (per-shard limit heuristic binds)")
 	ncur := flag.Int("curate", 400, "direct calls of curateFailedPoints")
 	nfault := flag.Int("fault", 8, "random fault scenarios (one shard server hangs / dies mid-call / leaves stale connections)")
+	ncluster := flag.Int("cluster", 0, "cluster-level scenarios for the composed model (compose.go; written to <out>/cluster)")
 	dir := flag.String("out", "", "output directory")
 	replay := flag.String("replay", "", "replay the op lines of this file against the implementation (prints impl answers)")
 	flag.Parse()
@@ -1310,6 +1311,9 @@ func main() {
 	}
 	for _, d := range abandoned.dirs {
 		os.RemoveAll(d)
+	}
+	if *ncluster > 0 {
+		runCompose(*dir, *seed, *ncluster)
 	}
 	o.Close(map[string]any{
 		"rule":           "one case = one cluster-level call (insert / update / delete / search through some entry node, a shard dump, or a direct curateFailedPoints call); non-trivial = distinct op line on a collection with at least two shards (curate: both lists non-empty)",
